@@ -160,6 +160,9 @@ class _Canon(ast.NodeTransformer):
     def visit_Subscript(self, node):
         self.generic_visit(node)
         v, sl = node.value, node.slice
+        # where(mask)[0] == flatnonzero(mask) (one-dimensional masks)
+        if isinstance(sl, ast.Constant) and sl.value == 0 and isinstance(v, ast.Call) and isinstance(v.func, ast.Name) and v.func.id == "where" and len(v.args) == 1 and not v.keywords:
+            return ast.Call(func=ast.Name(id="flatnonzero", ctx=ast.Load()), args=v.args, keywords=[])
         # a field and a row of a structured array commute: x[i]['f'] == x['f'][i] (field first)
         if isinstance(sl, ast.Constant) and isinstance(sl.value, str) and isinstance(v, ast.Subscript) and isinstance(v.value, (ast.Name, ast.Attribute)) and not isinstance(v.slice, (ast.Tuple, ast.List)) and not (isinstance(v.slice, ast.Constant) and isinstance(v.slice.value, str)):
             return ast.Subscript(value=ast.Subscript(value=v.value, slice=sl, ctx=ast.Load()), slice=v.slice, ctx=node.ctx)
